@@ -7,11 +7,12 @@ import ParsecVerif.Model.PtgDist
     prog <serialisation>                         -> ok <instances> <edges>
     wf                                           -> `wf <bool> gwf <bool>`: Ptg.WellFormed and DGraph.WF of graphOfProg
     ref <nt>                                     -> reference interpreter: `c l.. : seen.. : wrote.. ; .. # tile0 tile1 ..`
-    dok <topo> <nranks> <nt> <table..>           -> `true <collectives> <differing> <c13>` | `false <collectives> <differing> <c13> / <node..>`
+    dok <topo> <nranks> <nt> <table..>           -> `true <collectives> <differing> <c13> <multi>` | `false <collectives> <differing> <c13> <multi> / <node..>`
                                                     dataOKAll for the configuration (the hypothesis of
                                                     C05_rank_invariance_partial), number of nodes with a remote
                                                     successor, number of those whose outputs have different rank sets,
                                                     number of nodes violating C13's DeliveryOK (control outputs included),
+                                                    number of outputs with at least two destination ranks (relayed under chain / binomial),
                                                     and the offending nodes as instance positions
     starved <topo> <nranks> <nt> <table..>       -> instances (`c l..`, `;`-separated) that can never run when outputs are lost
     place <nranks> <nt> <table..>                -> owner rank of every instance
@@ -67,8 +68,10 @@ def step5 (s : DSt5) : List String → DSt5 × String
             | [] => false
           let bad := notOK g cf
           let c13 := (notDeliveryOK g cf).length
-          if bad.isEmpty then (s, s!"true {colls.length} {differing.length} {c13}")
-          else (s, s!"false {colls.length} {differing.length} {c13} / {" ".intercalate (bad.map toString)}")
+          -- outputs sent to at least two other ranks (chain and binomial need a relay for them)
+          let multi := ((List.range g.n).map fun a => ((outsOf g cf a).filter fun o => 2 ≤ o.2.eraseDups.length).length).sum
+          if bad.isEmpty then (s, s!"true {colls.length} {differing.length} {c13} {multi}")
+          else (s, s!"false {colls.length} {differing.length} {c13} {multi} / {" ".intercalate (bad.map toString)}")
         | _, _, _, _ => (s, "bad-op")
       | "starved" :: t :: n :: nt :: tab =>
         match nat? t, nat? n, nat? nt, nats? tab with
